@@ -1067,7 +1067,7 @@ class Bag(DaskMethodsMixin):
         if split_every is False:
             split_every = self.npartitions
 
-        token = tokenize(self, perpartition, aggregate, split_every)
+        token = tokenize(self, perpartition, aggregate, split_every, out_type)
         a = f"{name or funcname(perpartition)}-part-{token}"
         is_last = self.npartitions == 1
         dsk = {
